@@ -405,6 +405,15 @@ def run(case, ctx):
     if ok:
         variants.append(('reloaded.to_dict()',
                          json.loads(json.dumps(dd, default=str))))
+    # in memory a list of allowed types may just as well be a tuple
+    ct = copy.deepcopy(cons)
+    had_list = False
+    for fc in ct['fields'].values():
+        if isinstance(fc.get('type'), list):
+            fc['type'] = tuple(fc['type'])
+            had_list = True
+    if had_list:
+        variants.append(('dict-with-tuple-types', ct))
     base = None
     for (name, c) in variants:
         ok, v = quiet(verify_df, df.copy(), c, **kw)
